@@ -537,6 +537,21 @@ class Model:
                                 lambda: None, note=('must-refuse', 'old-path-is-a-udf-symlink'))
         b, ons, opath = self._blob_name(op)
         tns = [ns for ns in self.enabled()][op.get('to', 0) % len(self.enabled())]
+        if op.get('within'):
+            # source and target in one namespace chosen outright (1 iso, 2 joliet, 3 udf): the names of one File Entry / inode
+            want = {1: 'iso', 2: 'jol', 3: 'udf'}.get(op['within'])
+            have = sorted(p_ for n_, p_ in b.names if n_ == want)
+            if want in self.enabled() and have:
+                ons, opath, tns = want, have[0], want
+        if op.get('dupnew') and any(e['type'] == 'file' and e.get('blob') != b.id for e in self.t[tns].values()):
+            # the new name exists already (another file of that namespace): the call must be refused, and leave nothing behind
+            taken = sorted(p_ for p_, e in self.t[tns].items() if e['type'] == 'file' and e.get('blob') != b.id)
+            newp = taken[op['dupnew'] % len(taken)]
+            kw_ = {{'iso': 'iso_old_path', 'jol': 'joliet_old_path', 'udf': 'udf_old_path'}[ons]: opath,
+                   {'iso': 'iso_new_path', 'jol': 'joliet_new_path', 'udf': 'udf_new_path'}[tns]: newp}
+            if tns == 'iso' and self.rr:
+                kw_['rr_name'] = 'dup%d' % op['n']
+            return Call('add_hard_link', kw_, lambda: None, note=('must-refuse', 'new-name-exists'))
         gid, parents = self._parents(op, NSBIT[tns])
         if tns not in parents:
             raise Skip('target dir missing in namespace')
